@@ -80,7 +80,32 @@ NpFails(r, net, par, opts, x, u, d) ==
                  sc == Sum(Out(net, n), LAMBDA l : RAbs(QUp(l)) (+) (((RAbs(yo.rho[l][1]) (.) net.links[l].lam) (.) net.links[l].L) (/) par.T))
                        (+) Sum(OrigAt(net, n), LAMBDA q : IF q \in Queued(net) THEN RAbs(yo.w[q]) (/) par.T (+) RAbs(d.o[q]) ELSE Zero)
              IN RClose(lhs, rhs, Tol, sc)
+           \* C11 on the code alone: step(opts, x) = clamp_next(step(no options, clamp_init(x))), bit for bit
+           pl == r.obs.np_plain
+           Flag(s) == CASE s[1] = "rho" -> opts.pnd [] s[1] = "v" -> opts.pns [] s[1] = "w" -> opts.pnq
+           meta == IF pl.has /\ pl.ok
+                   THEN {s \in StateSlots(net) : ~RIsNaN(ObsY(net, pl.y, s)) /\
+                           ObsY(net, o.y, s) # (IF Flag(s) THEN Pos(ObsY(net, pl.y, s)) ELSE ObsY(net, pl.y, s))}
+                   ELSE {}
+           \* C17 on the NumPy engine: the origin flow recovered from the queue update respects the limits
+           TolS(z) == Tol (.) Mx(One, z)
+           bnd == IF defined /\ ~opts.pnq
+                  THEN {q \in Queued(net) : net.origins[q].kind # "simp_unlimited" /\
+                          LET qf == d.o[q] (-) ((yo.w[q] (-) xc.w[q]) (/) par.T)
+                              og == net.origins[q]  lk == net.links[OLink(net, q)]
+                              dem == Demand(par, xc, d, q)
+                              slack == TolS(Mx(dem, RAbs(xc.w[q]) (/) par.T))
+                          IN ~( /\ RLe(RNeg(slack), qf)
+                                /\ RLe(qf, dem (+) slack)
+                                /\ og.kind = "mainstream" => RLe(qf, QCap(lk) (+) slack)
+                                /\ og.kind # "mainstream" => RLe(qf, og.C (+) slack)
+                                /\ (og.kind # "mainstream" /\ xc.rho[OLink(net, q)][1] = lk.rho_max) => RLe(RAbs(qf), slack)
+                                /\ RLe(RNeg(TolS(ScaleW(net, par, xc, u, d, q))), yo.w[q]) )}
+                  ELSE {}
        IN {<<"np.y", s>> : s \in mism}
+          \cup {<<"np.bounds", q>> : q \in bnd}
+          \cup {<<"np.meta", s>> : s \in meta}
+          \cup (IF pl.has /\ ~pl.ok THEN {<<"np.ok", pl.err>>} ELSE {})
           \cup {<<"np.finite", s>> : s \in nonfinite}
           \cup (IF ~o.shapes THEN {<<"np.shapes", "">>} ELSE {})
           \cup (IF plain /\ mism = {} /\ ~cons THEN {<<"np.cons", "">>} ELSE IF plain /\ ~cons THEN {<<"np.cons", "">>} ELSE {})
@@ -232,6 +257,35 @@ SensFails(r, net, par) ==
           c \in {c \in RangeOf(sr.changed) : sin \notin Deps(net, par, <<c[1], c[2], c[3]>>)}}
     : k \in DOMAIN r.obs.sens}
 
+\* ---- neutral controls (C18): the case against its uncontrolled twin ------------------------------------------
+YOf(j) == [rho |-> [l \in DOMAIN j.rho |-> PSeq(j.rho[l])], v |-> [l \in DOMAIN j.v |-> PSeq(j.v[l])], w |-> [q \in DOMAIN j.w |-> P(j.w[q])]]
+TwinRel(net, expect, s, base, twin, tol, scale) ==
+  \/ RIsNaN(base) /\ RIsNaN(twin)
+  \/ IF expect = "equal" \/ s[1] # "v" \/ ~(net.links[s[2]].ctl /\ s[3] \in net.links[s[2]].vsl)
+     THEN RClose(base, twin, tol, scale)
+     ELSE RLe(base, twin (+) (tol (.) Mx(One, Mx(RAbs(twin), scale))))
+TwinFails(r, net, par, opts, x, u, d) ==
+  IF r.twin.expect = "none" \/ ~r.obs.twin.has THEN {}
+  ELSE IF ~r.obs.twin.ok THEN {<<"twin.ok", r.obs.twin.err>>}
+  ELSE
+    LET tnet == Net([net |-> r.twin.net])
+        tu == U(r.twin.u)
+        xc == ClampInit(opts, x)
+        yb == StepOpt(net, par, opts, x, u, d)
+        yt == StepOpt(tnet, par, opts, x, tu, d)
+        Val(y, s) == CASE s[1] = "rho" -> y.rho[s[2]][s[3]] [] s[1] = "v" -> y.v[s[2]][s[3]] [] s[1] = "w" -> y.w[s[2]]
+        model == {s \in StateSlots(net) : ~TwinRel(net, r.twin.expect, s, Val(yb, s), Val(yt, s), Zero, Zero)}
+        Pairs == {<<"np", r.obs.np.y, r.obs.twin.np>>} \cup {<<r.obs.twin.fn[k].sym, r.obs.twin.fn[k].base, r.obs.twin.fn[k].twin>> : k \in DOMAIN r.obs.twin.fn}
+    IN {<<"model.twin", s>> : s \in model}
+       \cup UNION {{<<"twin.y", pr[1], s>> : s \in {s \in StateSlots(net) :
+                       ~TwinRel(net, r.twin.expect, s, ObsY(net, pr[2], s), ObsY(net, pr[3], s), TolX, ScaleOf(net, par, xc, u, d, s))}} : pr \in Pairs}
+
+\* turn-rate scaling (C14): the record's network has the turn rates of every node scaled; base_beta are the originals
+ScaleFails(r, net, par, opts, x, u, d) ==
+  IF r.rel.kind # "scale" THEN {}
+  ELSE LET bnet == [net EXCEPT !.links = [l \in DOMAIN net.links |-> [net.links[l] EXCEPT !.beta = P(r.rel.base_beta[l])]]]
+       IN IF StepOpt(bnet, par, opts, x, u, d) = StepOpt(net, par, opts, x, u, d) THEN {} ELSE {<<"model.scale", "">>}
+
 \* ---- the verdict on one record ----------------------------------------------------------------------
 Verdict(r) ==
   LET net == Net(r)  par == Par(r)  opts == r.opts  x == X(r.x)  u == U(r.u)  d == D(r.d)
@@ -243,6 +297,8 @@ Verdict(r) ==
                \cup UNION {FnFails(r, k, net, par, opts, elems) : k \in DOMAIN r.obs.fn}
                \cup JacFails(r, net, par, elems)
                \cup SensFails(r, net, par)
+               \cup TwinFails(r, net, par, opts, x, u, d)
+               \cup ScaleFails(r, net, par, opts, x, u, d)
                \cup {<<"step.ok", r.obs.steps[k].engine, r.obs.steps[k].err>> : k \in {k \in DOMAIN r.obs.steps : ~r.obs.steps[k].ok}}
   IN [id |-> r.id, fails |-> fails,
       sig |-> BranchSig(net, par, ClampInit(opts, x), u, d),
